@@ -648,6 +648,27 @@ fn exec_dec(prop: &str, spec: &DecSpec, source: &mut dyn OpSource) -> RunOut {
             }
         }
     }
+    // A call that panics although the caller kept to the documented sizes and
+    // protocol is C06's to report; it also breaks the history-quantified
+    // property being checked when the null-schedule reference shows that the
+    // same stream converts without panicking (C02, C10), and it is not
+    // progress (C08).
+    if run.panicked_in_contract {
+        let what = run.aborted.clone().unwrap_or_default();
+        match prop {
+            "C02" | "C10" => {
+                let r = reference_dec(spec.enc, spec.bom, spec.repl, spec.form16, &spec.stream);
+                if r.ok {
+                    viols.push(viol("C02", "chunked-history-panics-single-call-does-not", format!("after {} of {} bytes: {}", run.consumed, n, what)));
+                    if prop == "C10" {
+                        viols.push(viol("C10", "chunked-history-panics-single-call-does-not", format!("after {} of {} bytes: {}", run.consumed, n, what)));
+                    }
+                }
+            }
+            "C08" => viols.push(viol("C08", "call-panicked-instead-of-progress", format!("after {} of {} bytes: {}", run.consumed, n, what))),
+            _ => {}
+        }
+    }
     // C08: bounded liveness
     if complete && matches!(prop, "C08" | "C02" | "C10") {
         if !run.finished {
@@ -758,6 +779,20 @@ fn exec_enc(prop: &str, spec: &EncSpec, source: &mut dyn OpSource) -> RunOut {
     let units = if spec.form16 { text_to_utf16(&spec.text).0.len() } else { text_to_utf8(&spec.text).0.len() };
     let complete = run.aborted.is_none();
 
+    if run.panicked_in_contract {
+        let what = run.aborted.clone().unwrap_or_default();
+        match prop {
+            "C04" => {
+                let r = reference_enc(spec.enc, spec.repl, spec.form16, &spec.text);
+                if r.ok {
+                    viols.push(viol("C04", "chunked-history-panics-single-call-does-not", format!("after {} calls: {}", run.calls.len(), what)));
+                }
+            }
+            "C08" => viols.push(viol("C08", "call-panicked-instead-of-progress", format!("after {} calls: {}", run.calls.len(), what))),
+            "C12" => viols.push(viol("C12", "encoder-panicked", format!("after {} calls the encoder panicked, so its output is neither complete nor decodable to the input: {}", run.calls.len(), what))),
+            _ => {}
+        }
+    }
     if complete && matches!(prop, "C08" | "C04") {
         if !run.finished {
             viols.push(viol("C08", "stream-did-not-finish", format!("{} events, {} calls for {} characters", run.events, run.calls.len(), nchars)));
